@@ -88,7 +88,7 @@ def run(module, cfg_path, *, name, workers=None, coverage=False, dump=None, dump
   tla = module if module.endswith('.tla') else os.path.join(SPEC, module + '.tla')
   # TLC resolves EXTENDS relative to the spec file's directory and -DTLA-Library.
   libs = [SPEC, os.path.join(SPEC, 'lib')] + list(modules_dirs)
-  cmd = ['java', '-XX:+UseParallelGC', '-Xmx8g', f'-DTLA-Library={os.pathsep.join(libs)}']
+  cmd = ['java', '-XX:+UseParallelGC', '-Xmx8g', '-Xss512m', f'-DTLA-Library={os.pathsep.join(libs)}']
   cmd += list(java_opts)
   cmd += ['-cp', f'{JAR}:{DEPS}', 'tlc2.TLC', '-metadir', os.path.join(wd, 'meta'),
           '-noGenerateSpecTE', '-config', cfg_path]
